@@ -43,6 +43,9 @@ type world struct {
 	aborted  bool
 	compared int
 	found    int
+
+	soft     bool     // collect mismatches instead of reporting them (state may legitimately lag)
+	softHits []string // what was collected
 }
 
 func nowS() int64 { return time.Now().Unix() }
@@ -84,8 +87,15 @@ func tailS(l []string, n int) []string {
 // viol records a violation. oracle = which comparison failed, class = operation /
 // precondition class; the configuration class (backend/cache) is appended.
 func (w *world) viol(oracle, class, what string, extra map[string]any) {
+	if w.soft {
+		w.softHits = append(w.softHits, oracle+": "+what)
+		return
+	}
 	sig := "C02:" + oracle + ":" + class + ":" + w.cfg.class()
-	d := map[string]any{"mode": "hist", "cfg": w.cfg, "history": w.h, "step": w.step, "build": w.cs.Build,
+	// the history travels as a JSON string: 64-bit integers must survive the trip through
+	// generic JSON values on the way into the replay file
+	hj, _ := json.Marshal(w.h)
+	d := map[string]any{"mode": "hist", "cfg": w.cfg, "history_json": string(hj), "history_no": w.h.No, "step": w.step, "build": w.cs.Build,
 		"log_tail": tailS(w.log, 80)}
 	for k, v := range extra {
 		d[k] = v
@@ -99,14 +109,41 @@ func (w *world) inconclusive(format string, a ...any) {
 	w.aborted = true
 }
 
+// after names the precondition class of a mismatch on a key: the last operation that
+// changed the key — unless the key was already seen intact since then and the check
+// runs right after a maintenance/flush call, which then is the suspect.
 func (w *world) after(mr *mrec) string {
-	if w.phase != "" {
-		return w.phase
-	}
 	if mr == nil || mr.lastOp == "" {
+		if w.phase != "" {
+			return w.phase
+		}
 		return "after-nothing"
 	}
+	if w.phase != "" && mr.verified {
+		return w.phase
+	}
 	return "after-" + mr.lastOp
+}
+
+func (w *world) taint(mr *mrec) {
+	if mr != nil && !w.soft {
+		mr.tainted = true
+	}
+}
+
+// kindClass folds the list of differing aspects into a stable signature part.
+func kindClass(kinds []string) string {
+	var metas []string
+	for _, k := range kinds {
+		if !strings.HasPrefix(k, "meta-") {
+			return "content"
+		}
+		metas = append(metas, k)
+	}
+	if len(metas) == 1 {
+		return metas[0]
+	}
+	return "meta"
 }
 
 // ---------------------------------------------------------------------------------
@@ -221,7 +258,9 @@ func (w *world) cmpMeta(mr *mrec, mv metaView, now1 int64) (kinds []string) {
 	if w.cfg.Cache == "delayed" && mm.ttl > 0 && now1+mm.ttl > exp.v+exp.slack {
 		exp.slack = now1 + mm.ttl - exp.v
 	}
-	if !exp.match(mv.Expires) {
+	if mm.deleted {
+		// the expiry of a deleted record means nothing
+	} else if !exp.match(mv.Expires) {
 		kinds = append(kinds, "meta-expires")
 	} else {
 		mm.expires = exp
@@ -293,16 +332,6 @@ func (w *world) cmpRecord(key string, mr *mrec, r record.Record, now1 int64) (ki
 	kinds = append(kinds, mk...)
 	desc = fmt.Sprintf("got %s meta=%+v; model %s %s meta={created:%+v modified:%+v expires:%+v ttl:%d deleted:%v secret:%v crown:%v}",
 		gotC, mv, mr.form, mr.c.String(), before.created, before.modified, before.expires, before.ttl, before.deleted, before.secret, before.crown)
-	if len(mk) > 0 {
-		// keep going from what the database holds now (one report per divergence)
-		mr.meta.created, mr.meta.modified, mr.meta.expires = tval{mv.Created, 0}, tval{mv.Modified, 0}, tval{mv.Expires, 0}
-		if mv.Deleted > 0 {
-			mr.meta.deleted, mr.meta.deletedAt, mr.meta.ttl = true, tval{mv.Deleted, 0}, 0
-		} else {
-			mr.meta.deleted, mr.meta.ttl = false, -mv.Deleted
-		}
-		mr.meta.secret, mr.meta.crown = mv.Secret, mv.Crown
-	}
 	return kinds, desc
 }
 
@@ -361,9 +390,7 @@ func (w *world) checkGet(key string, r record.Record, err error, t0, t1 int64) {
 			r.Unlock()
 			w.viol("get:stale-visible", w.after(mr), fmt.Sprintf("Get(%q) returned a record although the record is %s (returned meta %+v)", key, why, mv),
 				map[string]any{"key": key, "returned_meta": mv})
-			if mr != nil {
-				mr.tainted = true
-			}
+			w.taint(mr)
 		default:
 			w.viol("get:error", w.after(mr), fmt.Sprintf("Get(%q) failed: %v (expected not-found)", key, err), map[string]any{"key": key})
 		}
@@ -375,21 +402,19 @@ func (w *world) checkGet(key string, r record.Record, err error, t0, t1 int64) {
 		w.found++
 		kinds, desc := w.cmpRecord(key, mr, r, t1)
 		if len(kinds) > 0 {
-			w.viol("get:"+strings.Join(kinds, "+"), w.after(mr), fmt.Sprintf("Get(%q) returned something else than what was stored last: %s", key, desc),
-				map[string]any{"key": key})
-			for _, k := range kinds {
-				if !strings.HasPrefix(k, "meta-") {
-					mr.tainted = true
-				}
-			}
+			w.viol("get:"+kindClass(kinds), w.after(mr), fmt.Sprintf("Get(%q) returned something else than what was stored last (%s): %s", key, strings.Join(kinds, ","), desc),
+				map[string]any{"key": key, "differs": kinds})
+			w.taint(mr)
+		} else if !w.soft {
+			mr.verified = true
 		}
 	case "notfound":
 		w.viol("get:lost", w.after(mr), fmt.Sprintf("Get(%q) says not-found although a visible record is stored (model meta %+v)", key, mr.meta),
 			map[string]any{"key": key})
-		mr.tainted = true
+		w.taint(mr)
 	default:
 		w.viol("get:error", w.after(mr), fmt.Sprintf("Get(%q) failed: %v", key, err), map[string]any{"key": key})
-		mr.tainted = true
+		w.taint(mr)
 	}
 }
 
@@ -414,9 +439,7 @@ func (w *world) doExists(key string) {
 	}
 	if ok != vis {
 		w.viol(fmt.Sprintf("exists:%v-want-%v", ok, vis), w.after(mr), fmt.Sprintf("Exists(%q) = %v, the reference map says %v", key, ok, vis), map[string]any{"key": key})
-		if mr != nil {
-			mr.tainted = true
-		}
+		w.taint(mr)
 	}
 }
 
@@ -436,9 +459,9 @@ func (w *world) checkApplied(kind string, rec record.Record, nm *mrec, t1 int64)
 	}
 	before := nm.meta
 	if kinds := w.cmpMeta(nm, mv, t1); len(kinds) > 0 {
-		w.viol("put:"+strings.Join(kinds, "+"), kind, fmt.Sprintf("%s of %q: metadata of the saved record is %+v, expected created=%+v modified=%+v expires=%+v ttl=%d deleted=%v",
-			kind, rec.DatabaseKey(), mv, before.created, before.modified, before.expires, before.ttl, before.deleted), nil)
-		nm.meta.created, nm.meta.modified, nm.meta.expires = tval{mv.Created, 0}, tval{mv.Modified, 0}, tval{mv.Expires, 0}
+		w.viol("put:"+kindClass(kinds), kind, fmt.Sprintf("%s of %q: metadata of the saved record is %+v (%s differ), expected created=%+v modified=%+v expires=%+v ttl=%d deleted=%v",
+			kind, rec.DatabaseKey(), mv, strings.Join(kinds, ","), before.created, before.modified, before.expires, before.ttl, before.deleted), nil)
+		nm.tainted = true
 	}
 }
 
@@ -471,6 +494,7 @@ func (w *world) doPut(o op) {
 		w.b.Count("put_deleted_records", 1)
 	}
 	nm.lastOp = cls
+	nm.verified = false
 	if err != nil {
 		if isTimeout(err) {
 			w.inconclusive("%s: %v", o.K, err)
@@ -533,6 +557,14 @@ func (w *world) doPutMany(o op) {
 		ks = append(ks, it.key)
 	}
 	w.logf("putmany %q -> %s (%v)", ks, errClass(err), err)
+	if w.h.Priv == "none" {
+		// batch writes are reserved to local+internal interfaces: denied, state unchanged
+		w.compared++
+		if errClass(err) != "denied" {
+			w.viol("putmany:unprivileged-"+errClass(err), "putmany", fmt.Sprintf("PutMany through an interface without permissions answered %v instead of permission-denied", err), nil)
+		}
+		return
+	}
 	if !w.cfg.batcher() {
 		// optional capability: must answer not-implemented and leave the state unchanged
 		// (the unchanged part is decided by the following gets / read-backs)
@@ -551,6 +583,7 @@ func (w *world) doPutMany(o op) {
 		for _, it := range items {
 			it.nm.tainted = true
 			it.nm.lastOp = "putmany"
+			it.nm.verified = false
 			w.m.recs[it.key] = it.nm
 			w.used[it.key] = true
 		}
@@ -560,8 +593,10 @@ func (w *world) doPutMany(o op) {
 	for _, it := range items {
 		it.nm.meta.update(t0, t1)
 		it.nm.lastOp = "putmany"
+		it.nm.verified = false
 		if it.nm.meta.deleted {
 			it.nm.lastOp = "putmany-deleted"
+			it.nm.verified = false
 		}
 		w.used[it.key] = true
 	}
@@ -608,6 +643,7 @@ func (w *world) doDelete(key string) {
 		mr.meta.update(t0, t1)
 		mr.meta.deleted, mr.meta.deletedAt, mr.meta.ttl = true, tval{t0, t1 - t0}, 0
 		mr.lastOp = "delete"
+		mr.verified = false
 		w.b.Count("deletes_effective", 1)
 	case "notfound":
 		w.viol("delete:lost", w.after(mr), fmt.Sprintf("Delete(%q) says not-found although a visible record is stored", key), map[string]any{"key": key})
@@ -667,8 +703,10 @@ func (w *world) doSetExpiry(kind, key string, abs bool, val int64) {
 			mr.meta.update(t0, t1)
 			mr.meta.expires = tval{val, 0}
 			mr.lastOp = kind
+			mr.verified = false
 			if val != 0 && val < t0 {
 				mr.lastOp = kind + "-past"
+				mr.verified = false
 			}
 		} else {
 			if val > 0 {
@@ -676,11 +714,17 @@ func (w *world) doSetExpiry(kind, key string, abs bool, val int64) {
 				mr.meta.ttl = val
 				mr.meta.update(t0, t1)
 			} else {
-				// ttl removed; the save itself still happened under the old ttl
-				mr.meta.update(t0, t1)
+				// ttl removed. Whether this last save still moved the expiry (now + old ttl)
+				// or left it where the previous save put it is not determined: accept both.
+				oldTTL, oldExp := mr.meta.ttl, mr.meta.expires
 				mr.meta.ttl = 0
+				mr.meta.update(t0, t1)
+				if oldTTL > 0 && oldExp.v > 0 && t1+oldTTL > oldExp.v {
+					mr.meta.expires = tval{oldExp.v, t1 + oldTTL - oldExp.v}
+				}
 			}
 			mr.lastOp = kind
+			mr.verified = false
 		}
 	case "notfound":
 		w.viol(kind+":lost", w.after(mr), fmt.Sprintf("%s(%q) says not-found although a visible record is stored", kind, key), map[string]any{"key": key})
@@ -717,7 +761,7 @@ func (w *world) doQuery(q *qSpec, why string) {
 		w.compared++
 		cls := "query"
 		if strings.Contains(err.Error(), "no such file") {
-			cls = "enoent"
+			cls = "prefix-not-on-disk"
 		}
 		w.viol("query:refused", cls, fmt.Sprintf("Query(%s) was refused: %v", q, err), map[string]any{"query": q})
 		return
@@ -752,7 +796,7 @@ func (w *world) doQuery(q *qSpec, why string) {
 	if ierr != nil {
 		cls := "query"
 		if strings.Contains(ierr.Error(), "no such file") {
-			cls = "enoent"
+			cls = "prefix-not-on-disk"
 		}
 		w.viol("query:error", cls, fmt.Sprintf("Query(%s) ended with error %v; the reference map has no failing queries", q, ierr), map[string]any{"query": q})
 	}
@@ -777,6 +821,7 @@ func (w *world) doQuery(q *qSpec, why string) {
 		case !vis:
 			w.viol("query:extra-invisible", w.after(mr), fmt.Sprintf("Query(%s) returned key %q, which is deleted/expired/absent in the reference map", q, k),
 				map[string]any{"query": q, "key": k})
+			w.taint(mr)
 			continue
 		}
 		if match, ok := mr.matches(q); ok && !match {
@@ -785,8 +830,9 @@ func (w *world) doQuery(q *qSpec, why string) {
 			continue
 		}
 		if kinds, desc := w.cmpRecord(k, mr, r, t1); len(kinds) > 0 {
-			w.viol("query:record-"+strings.Join(kinds, "+"), w.after(mr), fmt.Sprintf("Query(%s) delivered key %q with other content than stored: %s", q, k, desc),
-				map[string]any{"query": q, "key": k})
+			w.viol("query:record-"+kindClass(kinds), w.after(mr), fmt.Sprintf("Query(%s) delivered key %q with other content than stored (%s): %s", q, k, strings.Join(kinds, ","), desc),
+				map[string]any{"query": q, "key": k, "differs": kinds})
+			w.taint(mr)
 		}
 	}
 	for k, n := range seen {
@@ -814,8 +860,13 @@ func (w *world) doQuery(q *qSpec, why string) {
 		want++
 		if seen[k] == 0 {
 			cls := w.after(mr)
-			if q.Where != nil {
+			if q.Where != nil && mr.verified {
+				// the record was read back intact after its last change: the condition
+				// evaluation is the suspect, not the write
 				cls = cc + "/" + mr.form
+			}
+			if w.cfg.Backend == "fstree" && q.Prefix != "" && !strings.HasSuffix(q.Prefix, "/") {
+				cls = "prefix-below-directory"
 			}
 			w.viol("query:missing", cls, fmt.Sprintf("Query(%s) did not return key %q (fields %s), which is visible and matches", q, k, mr.c.String()),
 				map[string]any{"query": q, "key": k, "content": mr.c})
@@ -875,6 +926,7 @@ func (w *world) doPurge(q *qSpec) {
 		}
 		mr.meta.deleted, mr.meta.deletedAt, mr.meta.ttl = true, tval{t0, t1 - t0}, 0
 		mr.lastOp = "purge"
+		mr.verified = false
 	}
 	w.b.Count("purged_records", int64(cnt))
 	if cnt < lo || cnt > hi {
@@ -1004,14 +1056,16 @@ func (w *world) doWait(o op) {
 	if limit > t0+5 {
 		return
 	}
+	saved := *mr
 	w.doGet(key)
 	// the reference expiry stands, whatever the database reported just now
-	mr.meta.expires = ref
+	*mr = saved
 	for nowS() <= limit {
 		time.Sleep(40 * time.Millisecond)
 	}
 	w.b.Count("expiry_transitions", 1)
 	mr.lastOp += "-elapsed"
+	mr.verified = false
 	w.doGet(key)
 	w.doExists(key)
 	if w.cfg.Cache == "delayed" {
@@ -1120,9 +1174,17 @@ func (w *world) run() {
 			w.iface.FlushCache()
 			w.b.Count("op/flushapi", 1)
 			w.logf("FlushCache()")
-			w.phase = "post-FlushCache"
+			w.soft, w.softHits = true, nil
 			w.doQuery(&qSpec{Prefix: ""}, "after-FlushCache")
-			w.phase = ""
+			w.soft = false
+			if len(w.softHits) > 0 {
+				w.viol("flushcache:writes-not-flushed", "Interface.FlushCache", fmt.Sprintf("a query right after FlushCache() does not see the writes made before it (%d differences, first: %s)",
+					len(w.softHits), w.softHits[0]), map[string]any{"differences": tailS(w.softHits, 10)})
+			} else {
+				w.b.Count("flushapi_queries_consistent", 1)
+			}
+			// bring storage and model together again the documented way
+			w.flushByWriter()
 		case "readback":
 			w.b.Count("op/readback", 1)
 			w.readback(3)
